@@ -231,6 +231,79 @@ def tree_str(t):
     return repr(t)[:400]
 
 
+def run_data_in_gate(chk, tier, units, leaves):
+    """`data_in(unit)` hands out the stored number without conversion: it is the API gate of "quantity-equivalent (conversion factor
+    exactly 1) if and only if exact dimension and magnitude coincide".  Accept/reject probes, const and mutable access, unit and
+    maker spellings."""
+    from .. import ccmon
+    rnd = core.rng("c02gate", tier)
+    names = sorted(units)
+    probes = []
+    pid = 1
+    n_pairs = 40 if tier == "quick" else 300
+    guard = 0
+    pairs = 0
+    while pairs < n_pairs and guard < n_pairs * 20:
+        guard += 1
+        t = model.gen_tree(rnd, names, rnd.choice([0, 1, 2]))
+        if model.count_leaves(t) > 4 or model.has_ordering_tie(t, leaves):
+            continue
+        try:
+            e = model.ev(t, leaves)
+            if not model.max_exp_ok(e):
+                continue
+            u1 = f"decltype({model.spell(t, 'unit', units)})"
+            kind = rnd.choice(["same", "reassoc", "scaled", "one", "other_dim", "scaled_by_unit_ratio"])
+            if kind == "same":
+                t2, equiv = t, True
+            elif kind == "reassoc":
+                t2, equiv = model.reassociate(t, rnd), True
+            elif kind == "one":
+                t2, equiv = ("scale", t, ("mdiv", ("int", 5), ("int", 5)), "*"), True
+            elif kind == "scaled":
+                t2, equiv = ("scale", t, ("int", rnd.choice([2, 3, 12, 1000])), rnd.choice("*/")), False
+            elif kind == "scaled_by_unit_ratio":
+                t2, equiv = ("scale", t, ("mdiv", ("int", 1250), ("int", 381)), "*"), False
+            else:
+                t2, equiv = ("mul", t, ("leaf", rnd.choice(["Seconds", "Meters", "Grams", "Amperes"]))), False
+            e2 = model.ev(t2, leaves)
+            if model.has_ordering_tie(("mul", t, t2), leaves) or not model.max_exp_ok(e2):
+                continue
+            if (e.dm_key() == e2.dm_key()) != equiv:
+                continue
+            u2 = f"decltype({model.spell(t2, 'unit', units)})"
+        except model.Unspellable:
+            continue
+        pairs += 1
+        rep = rnd.choice(["int", "double", "uint8_t", "float"])
+        exp = "accept" if equiv else "reject"
+        forms = [("mutable_unit", f"au::Quantity<U1, {rep}> q{{}}; q.data_in(U2{{}}) = {rep}{{1}};"), ("const_unit", f"const au::Quantity<U1, {rep}> q{{}}; auto x = q.data_in(U2{{}}); (void)x;"),
+                 ("mutable_maker", f"au::Quantity<U1, {rep}> q{{}}; q.data_in(au::QuantityMaker<U2>{{}}) = {rep}{{1}};"), ("const_maker", f"const au::Quantity<U1, {rep}> q{{}}; auto x = q.data_in(au::QuantityMaker<U2>{{}}); (void)x;")]
+        for fname, body in forms:
+            probes.append({"id": pid, "expect": exp, "form": fname, "kind": kind, "u1": u1, "u2": u2, "dedup_key": (u1, u2, rep, fname.split("_")[0]),
+                           "text": f"void vf_p{pid}() {{ using namespace au; using U1 = {u1}; using U2 = {u2}; {body} }}"})
+            pid += 1
+    pre = '#include "au/au.hh"\n' + planeb.unit_includes(units) + "\n#include <cstdint>\n"
+    n = 0
+    for cfg in ([(core.GXX, "c++14")] if tier == "quick" else [(core.GXX, "c++14"), (core.CLANGXX, "c++20")]):
+        pr = ccmon.ProbeRun(pre, cfg[0], cfg[1], batch=100)
+        res = pr.run(probes, tag="c02gate")
+        by = {p["id"]: p for p in probes}
+        for pid_, r in res.items():
+            p = by[pid_]
+            n += 1
+            if r.get("unverified"):
+                continue
+            if p["expect"] == "reject" and not r["rejected"]:
+                chk.violation(f'C02|data_in_accepts_non_equivalent|form={p["form"]}|kind={p["kind"]}|u1={p["u1"][:120]}|u2={p["u2"][:120]}', msg=f'{cfg[0]} {cfg[1]}: `data_in` ({p["form"]}) of a quantity of {p["u1"][:160]} accepts the non-equivalent unit {p["u2"][:160]} ({p["kind"]})')
+            elif p["expect"] == "accept" and r["rejected"]:
+                chk.violation(f'C02|data_in_rejects_equivalent|form={p["form"]}|kind={p["kind"]}|u1={p["u1"][:120]}|u2={p["u2"][:120]}', msg=f'{cfg[0]} {cfg[1]}: `data_in` ({p["form"]}) rejects the quantity-equivalent unit {p["u2"][:160]} for {p["u1"][:160]}: {(r["msgs"] or ["?"])[0][:160]}')
+        if pr.n_unverified:
+            chk.fail_inconclusive("data_in gate: more disagreements than could be re-checked in isolation")
+    chk.notes["data_in_gate_probes"] = n
+    return n
+
+
 def run(chk, which="C02"):
     tier = chk.tier
     units = {u.type: u for u in model.scan_units()}
@@ -324,8 +397,9 @@ def run(chk, which="C02"):
             chk.violation(f'C02|rejected_in_config|{fl}|{std}|expr={str(e.get("expr"))[:200]}', msg=f"expression accepted by g++ c++14 but rejected under {fl} {std}")
         elif md5 != md5_main[p[0]]:
             chk.violation(f'C02|config_diff|{fl}|{std}|tu={p[0]}', msg=f"reified trace of TU {p[0]} differs between g++ c++14 and {fl} {std}")
+    n_gate = run_data_in_gate(chk, tier, units, leaves)
     nontrivial = len(distinct_types)
-    chk.add_evals(n_units + n_rel + n_ratio, nontrivial)
+    chk.add_evals(n_units + n_rel + n_ratio + n_gate, nontrivial)
     chk.cov["rule"] = ("seeded random unit-expression trees (depth<=3, <=8 leaves) over the scanned library units, 32 prefixes, integer/rational/pi magnitudes, integer powers and roots; "
                        "each tree is reified in its written form, 2 re-associations, maker/symbol/constant spellings and a same-dimension sibling; evaluations = reified units + relation + ratio events; "
                        "distinct_nontrivial = distinct library type ids observed")
